@@ -103,7 +103,9 @@ Fixpoint emit_item (c : cfg) (top : bool) (s : gstate) (it : item) {struct it} :
            | [] => ([], st)
            | x :: r => let '(o1, s1) := emit_item c false st x in let '(o2, s2) := go s1 r in (o1 ++ o2, s2)
            end) (mkG (recorded s0) []) body in
-      ([OClass name refs ob], mkG (recorded sb) (vars s0))
+      (* after popping its own scope the class name is appended to the ENCLOSING scope's _vars: a later `X = f(X)` is
+         not emitted a second time *)
+      ([OClass name refs ob], mkG (recorded sb) (vars s0 ++ [name]))
   | IVar name annotated k refs => emit_var c top s name annotated k refs
   | IIf b1 b2 =>
       let go := (fix go (st : gstate) (l : list item) : list out * gstate :=
